@@ -1,19 +1,73 @@
 From Coq Require Import String List NArith ZArith Bool Arith.
-From SA Require Import Base.Tok Codec.Codec Nego.FragSize Nego.Ladder.
+From SA Require Import Base.Tok Codec.Codec Nego.FragSize Nego.Ladder Nego.Handshake.
+From SA.Wrap Require Import Wrap.
+From SA.Srv Require Import Server.
 Import ListNotations.
 Open Scope N_scope.
 
-(* c11 <case> <bits> <types> <limit> <seed>  ->  term <1 if the probing ends> up <code of the upstream codec the ladder commits to | 0 = not predicted> *)
+(* the record type names of the case lines: a word "all" or names separated by commas *)
+Definition rtype_of_name (w : bytes) : option rtype :=
+  if bytes_eqb w (wd "NULL") then Some RNull else if bytes_eqb w (wd "PRIVATE") then Some RPrivate
+  else if bytes_eqb w (wd "TXT") then Some RTxt else if bytes_eqb w (wd "SRV") then Some RSrv
+  else if bytes_eqb w (wd "MX") then Some RMx else if bytes_eqb w (wd "CNAME") then Some RCname
+  else if bytes_eqb w (wd "AAAA") then Some RAAAA else if bytes_eqb w (wd "A") then Some RA else None.
+
+Fixpoint split_commas (s cur : bytes) : list bytes :=
+  match s with
+  | [] => [rev cur]
+  | c :: r => if c =? 44 then rev cur :: split_commas r [] else split_commas r (c :: cur)
+  end.
+
+Definition parse_types (t : tok) : option (list rtype) :=
+  match t with
+  | TW w =>
+    if bytes_eqb w (wd "all") then Some all_rtypes
+    else fold_right (fun n acc => match rtype_of_name n, acc with Some r, Some l => Some (r :: l) | _, _ => None end)
+                    (Some []) (split_commas w [])
+  | _ => None
+  end.
+
+Definition parse_case (t : tok) : option case_policy :=
+  if is_word "keep" t then Some CKeep else if is_word "lower" t then Some CLower else if is_word "upper" t then Some CUpper else None.
+Definition parse_bits (t : tok) : option bit_policy :=
+  if is_word "keep" t then Some BKeep else if is_word "strip" t then Some BStrip else if is_word "drop" t then Some BDrop else None.
+
+Definition stage_word (s : stage) : tok :=
+  match s with
+  | StQueryType => W "querytype" | StVersion => W "version" | StFragmentSize => W "fragsize" | StSwitchFragment => W "switch"
+  end.
+
+Definition view_toks (ps : params) : list tok :=
+  match server_view ps with
+  | Some (u, d, f, l) => [W "srvup"; TN (code u); W "srvdown"; TN (code d); W "srvfrag"; TN f; W "srvlazy"; Tbool l]
+  | None => [W "srvgone"]
+  end.
+
+(* c11 <case> <bits> <types> <limit> <seed>: the limit is an answer size in octets; 0 = none; negative = enforced by cutting
+   trailing answer records instead of dropping the answer.
+   ->  hs ok qt <n> up <code> down <code> edns <b> lazy <b> upmtu <n> frag <n> hsex <exchanges> srvup .. srvdown .. srvfrag .. srvlazy ..
+     | hs fail why <stage> hsex <exchanges>
+     | hs nonterm
+     | notpredicted          (the alternating-case policy depends on the random cache characters of every query) *)
 Definition dispatch_c11 (ts : list tok) : list tok :=
   match ts with
-  | [op; cp; bp; _; TI limit; _] =>
+  | [op; cp; bp; ty; TI limit; _] =>
     if is_word "c11" op then
-      let term := match autodetect 16 (threshold_path (Z.to_N limit)) with FOutOfFuel => false | _ => true end in
-      let bpol := if is_word "strip" bp then BStrip else if is_word "drop" bp then BDrop else BKeep in
-      let up := if is_word "keep" cp then code (select_upstream CKeep bpol)
-                else if is_word "lower" cp then code (select_upstream CLower bpol)
-                else if is_word "upper" cp then code (select_upstream CUpper bpol) else 0 in
-      [W "term"; Tbool term; W "up"; TN up]
+      if is_word "alt" cp then [W "notpredicted"]
+      else
+        match parse_case cp, parse_bits bp, parse_types ty with
+        | Some c, Some b, Some tys =>
+          let p := {| p_case := c; p_bits := b; p_types := tys; p_limit := Z.abs_N limit; p_trunc := (limit <? 0)%Z |} in
+          match handshake hs_fuel test_domain p with
+          | HsOk ps =>
+            [W "hs"; W "ok"; W "qt"; TN (rtype_code (hp_qt ps)); W "up"; TN (code (hp_up ps)); W "down"; TN (code (hp_down ps));
+             W "edns"; Tbool (hp_edns ps); W "lazy"; Tbool (hp_lazy ps); W "upmtu"; Tnat (hp_up_frag ps); W "frag"; TN (hp_down_frag ps);
+             W "hsex"; Tnat (hp_exchanges ps)] ++ view_toks ps
+          | HsFail s n => [W "hs"; W "fail"; W "why"; stage_word s; W "hsex"; Tnat n]
+          | HsOutOfFuel => [W "hs"; W "nonterm"]
+          end
+        | _, _, _ => [W "model-error"]
+        end
     else [W "model-error"]
   | _ => [W "model-error"]
   end.
